@@ -67,7 +67,7 @@ CLAIMED = {
     ),
     "C20": (
         ["Workers", "MC_Workers", "Gen_Workers", "Trace_Workers"],
-        "TLA+ model of N worker processes (start-up restore steps, connect, schema, reads, bootstrap-page write, commit) under SQLite WAL locking rules; TLC explores all interleavings of 2-3 workers; "
+        "TLA+ model of N worker processes (start-up restore steps, connect, schema, reads, bootstrap-page write, commit, close; the creating context as a process that only closes) under SQLite WAL locking and checkpoint rules; TLC explores all interleavings of 2-3 workers and every placement of the closes; "
         "TLC-generated schedules are replayed on real forked processes under harness-side schedule control (wrappers on os/sqlite3 operations), recorded (process, op, result) traces validated by a TLC trace spec; free-running stress with 2..16 workers",
         "Bounded-exhaustive interleavings in the model; schedule replay + trace validation on the real code; stress runs. Two listed findings (restore race on start-up, bootstrap write under an open cursor) are reported as KNOWN-FINDING; any failure not explained by them is a VIOLATION.",
         "schedule points are the wrapped operations; WAL mode; existing populated database; stress linearisation approximate (re-validated over interval-compatible orders).",
@@ -122,9 +122,10 @@ CLAIMED = {
         "DESIGN.md §5 C05, notes/C05b.md",
     ),
     "C06": (
-        ["SandboxReach", "MC_SandboxReach", "Gen_SandboxReach"],
+        ["SandboxReach", "MC_SandboxReach", "Gen_SandboxReach", "SandboxGate", "MC_SandboxGate", "Gen_SandboxGate", "Trace_SandboxGate"],
         "TLA+ attacker model (set of held references, Next = follow an edge) instantiated on every run with the object graph extracted from the LIVE sandbox (tables, metatables, require() results, attributes of reachable Python objects per the attribute filter); "
-        "TLC computes reachability of forbidden capabilities; every TLC path is compiled to a Lua probe and executed through #invoke; an attack corpus is executed for real and must be covered by the model",
+        "TLC computes reachability of forbidden capabilities; every TLC path is compiled to a Lua probe and executed through #invoke; an attack corpus is executed for real and must be covered by the model; "
+        "SandboxGate models the attribute gate of the Lua-Python bridge over HISTORIES of lookups (gate memory, objects with lifetimes): TLC enumerates every bounded history with the demanded answers, each is run in a fresh context, random longer histories are validated by TLC",
         "Exhaustive reachability over the extracted live object graph (~1000 objects) and an every-order model check; real-code confirmation of every counterexample path; 56-module attack corpus with file-system/database snapshots.",
         "object-capability model: VM-level exploits and C library internals trusted; call summaries for a fixed list of callables; offline stand-ins for ustring/libraryUtil.",
         "DESIGN.md §5 C06, notes/C06.md",
